@@ -9,6 +9,11 @@ import (
 var specials = []uint64{0, 1, 2, 3, 4, 5, 6, 7, 8, 9, 12, 15, 16, 17, 20, 23, 24, 31, 32, 63, 64, 83, 84, 85, 86, 127, 128, 129, 255, 256, 1023, 1024, 1025,
 	4095, 4096, 4097, 0x7fff, 0x8000, 0xffff, 0x10000, 0x7fffffff, 0x80000000, 0xfffffffe, 0xffffffff, 0x100000000, 0x7fffffffffffffff, 0xffffffffffffffff}
 
+// wraps are 32-bit counts whose product with a unit size of 2, 3, 4, 8 or 12 wraps around to a
+// small number (size arithmetic done in 32 bits then sees a short value with a huge count).
+var wraps = []uint64{0x80000000, 0x80000001, 0x80000002, 0x40000000, 0x40000001, 0x40000002, 0x40000003, 0x40000005, 0x20000000, 0x20000001, 0x20000002,
+	0x55555556, 0x55555557, 0x15555556, 0xc0000001, 0xc0000002, 0xa0000001, 0x60000001, 0xfffffff1, 0xfffffff8}
+
 // MutateField applies one structure-aware change at a walker-found field.
 func MutateField(r *core.Rng, b []byte, f Field) string {
 	old := GetField(b, f)
@@ -30,6 +35,9 @@ func MutateField(r *core.Rng, b []byte, f Field) string {
 		v = old ^ (1 << uint(r.Intn(8*f.Width)))
 	default:
 		v = r.U64()
+	}
+	if (f.Kind == "count" || f.Kind == "size") && f.Width >= 4 && r.Chance(1, 6) {
+		v = wraps[r.Intn(len(wraps))]
 	}
 	if f.Kind == "type" && f.Width == 2 && r.Chance(2, 3) {
 		v = uint64(r.Pick(0, 1, 2, 3, 4, 5, 6, 7, 8, 9, 10, 11, 12, 13, 129, 240, 241, 255, 0x0102, 0xf102))
